@@ -443,6 +443,11 @@ class Parser:
             return True
 
         if ttype == "semicolon" and ctype != "test" and not withblock:
+            curarg = self.__curcommand.curarg
+            if curarg is not None and "extra_arg" in curarg:
+                raise ParseError(
+                    "missing value for the %s argument" % curarg["name"]
+                )
             self.__cstate = None
             if not self.__check_command_completion(testsemicolon=False):
                 return False
